@@ -502,6 +502,10 @@ def restart_and_probe(rng, drv, profile, tid, n0):
     apps = sorted({r["app"] for r in db["mb"]} | {r["app"] for r in db["np"]}) or list(profile["apps"][:1])
     sides = list(profile["sides"]) + ["s4"]
     rng.shuffle(sides)
+    if rng.random() < 0.6:
+        # strangers first: sides that are not yet on any mailbox come back before the members do
+        members = {r["side"] for r in db["mbs"]}
+        sides.sort(key=lambda x: x in members)
     slots = list(drv.conn_names)
     for k, side in enumerate(sides[:rng.choice([2, 3, 4])]):
         c = slots[k % len(slots)]
